@@ -5,8 +5,9 @@
   at any moment (before, during, after OnConnect), user Close inside any callback, any interleaving.
 -/
 import Netpoll.Conn.LifeReachLemmasD
+import Netpoll.Conn.LifeDemos
 namespace Netpoll.Props.C09
-open Netpoll.Conn.Life
+open Netpoll.Conn.Life Netpoll.Conn.LifeDemos
 
 /-- OnPrepare finishes before the connection can receive events: while the acceptor has not passed registration
 (which follows the return of OnPrepare) the poller has not touched the connection and no hang-up is in progress -/
@@ -71,16 +72,9 @@ theorem C09_disconnect_before_callbacks_partial {s : S} (h : Reachable s) (hcb :
   by_cases c1 : s.hPc = 5 <;> by_cases c2 : s.hPc = 10 <;>
     by_cases c3 : ((2 ≤ s.hPc ∧ s.hPc ≤ 4) ∨ (7 ≤ s.hPc ∧ s.hPc ≤ 9)) <;> simp_all <;> omega
 
-/-- D17 (known finding): the peer closes; the hang-up goroutine wins closeBy; before it reaches onDisconnect() the handler
+/- D17 (known finding): the peer closes; the hang-up goroutine wins closeBy; before it reaches onDisconnect() the handler
 task – which holds `processing` – reads `closing = poller` with an empty buffer and runs the close callbacks: they start
 (and here finish) before OnDisconnect has run -/
-def d17 : List Act :=
-  [.a .aPrepE, .a .aPrepX, .a (.aAct1 0), .a (.aReg true), .a (.aAct2 0), .a (.aSt true),
-   .p .pFetch, .p (.pDo true), .p (.pRead 5), .p (.pAck 5), .p (.pGet 1), .p (.pLock true), .p .pFinish, .p .pDone,
-   .t (.t3 5), .t .tHenter, .u (.uConsume 5 0), .t .tHexit,
-   .p .pPeerClose, .p .pFetch, .p (.pDo true), .p (.pRead 0), .p (.pAck 0), .p .pHup, .p (.pDet 1), .p .pHDone,
-   .h (.hCas true),
-   .t (.t4a 2), .t (.t4b2 0), .b .cbEnterU, .b .cbExitU]
 
 theorem D17_witness : ∃ s, run (init true false true true) d17 = some s ∧ Reachable s ∧
     s.cbRuns = 1 ∧ s.hupWon = true ∧ s.hasOD = true ∧ s.hasOC = false ∧ s.discRuns = 0 ∧ s.hPc = 2 := by
@@ -89,15 +83,8 @@ theorem D17_witness : ∃ s, run (init true false true true) d17 = some s ∧ Re
 
 /-! Non-vacuity of the quiescence theorem's hypotheses: peer close after OnConnect finished, OnDisconnect run by the
 hang-up goroutine, then the callbacks. -/
-def demo : List Act :=
-  [.a .aPrepE, .a .aPrepX, .a (.aAct1 0), .a (.aReg true), .a (.aAct2 0), .a (.aConn true), .a (.aProc true),
-   .t (.tC0 true), .t .tOCenter, .t .tOCexit, .t .tC2, .t (.tC3 0), .t (.t4a 0), .t .t6, .t (.t7a 0),
-   .p .pPeerClose, .p .pFetch, .p (.pDo true), .p (.pRead 0), .p (.pAck 0), .p .pHup, .p (.pDet 1), .p .pHDone,
-   .h (.hCas true), .h (.hRd true), .h (.hWr true), .h (.hGet 1), .h (.hConn true), .h (.hSt true), .h .hODe2, .h .hODx2, .h .hUnl,
-   .h (.hLock true), .b .cbEnterU, .b .cbExitU, .b .cbEnterF, .b (.cbF1 true), .b (.cbF2 true), .b (.cbF3 1), .b (.cbF3b 0),
-   .b .cbF3c, .b (.cbF4 0), .b .cbF4b, .b .cbFx]
 
-example : ∃ s, run (init true true true false) demo = some s ∧ s.hupWon = true ∧ s.hasOD = true ∧ s.ocEnds = 1 ∧
+example : ∃ s, run (init true true true false) demoDisconnect = some s ∧ s.hupWon = true ∧ s.hasOD = true ∧ s.ocEnds = 1 ∧
     s.discRuns = 1 ∧ s.cbDone = 1 ∧ s.hPc = 99 := by
   refine ⟨_, rfl, ?_⟩
   decide
